@@ -37,10 +37,12 @@ def gen_history(rng, B=None, ops_len=None):
     b = {'nb': B} if rng.random() < 0.6 else {'bs': -(-n // B)}
     B = crops.num_batches_for(n, b)
     kind = rng.choice([{'scalar': 'num'}, {'scalar': 'str'}, {'tuple': [[[], 'num'], [[], 'num']]}])
-    new = {'op': 'new', 'shuffle': rng.choice([0, 0, 4]) if cases else 0}
+    new = {'op': 'new', 'shuffle': rng.choice([0, 0, 4])}
     new.update(b)
     sow = {'op': 'sow', 'cases': cases}
-    if not cases: sow['shuffle'] = rng.choice([0, 0, 6])
+    if not cases:
+        sow['shuffle'] = rng.choice([0, 0, 6])
+        crops.vary_sow_call(rng, sow)
     else: sow['spelling'] = 'tuple'
     ops = [new]
     if rng.random() < 0.25: ops.append({'op': 'query'})                     # progress asked before anything is sown
